@@ -7,12 +7,16 @@
    * logic theorems for ALL blocks, layouts satisfying `layoutOk` and geometric sub-results satisfying
      `GeoOk`, by case analysis over the exits of `_handle_without_gain` (`Earverif.DS.handleNoGain`).
 
+   * round 7 (`*_concrete`): the same property for `handleC` (`Model/DirectSpeakersConcrete.lean`), in which nothing
+     is captured: position glue and both fallback panners are computed (C01/C05/C13/C19 models by import), over ℝ.
+
    Float versus rational: the theorems are about the exact rational values of the float64 table entries and
    of the captured panner gains; finiteness / rounding of the final products is searched on the real code. -/
 import Earverif.Proofs.C10
 import Earverif.Proofs.C10Geom
 import Earverif.Proofs.C10Angle
 import Earverif.Proofs.C10Sqrt
+import Earverif.Proofs.C10Concrete
 import Earverif.Gen.C10_Tables
 
 namespace Earverif.DS
@@ -531,6 +535,368 @@ theorem geo_ds_passthrough (L : Layout) (hL : L ∈ layouts) (G : LayoutGeom) (p
               (fun x => x * gain * (if mute then 0 else og))) :=
   ds_passthrough L hL p hp hitu c hc gain og mute _
 
+/-! ## round 7: nothing captured — position glue and both fallback panners inside the model
+
+`handleC` (`Model/DirectSpeakersConcrete.lean`) computes, over a scalar type, the Cartesian vector of the shifted
+polar position (`common.cart`), the Cartesian screen edge lock (`point_cart_to_polar` → `lock_to_screen_edge` →
+`compensate_position` → `point_polar_to_cart`), `closest_channel_index` with the code's square roots, and the gains
+of the fallback panner: `point_source.configure(layout.without_lfe).handle` for polar blocks (the C05 model walked
+over its regenerated table) and `AllocentricPanner(positions_for_layout(layout.without_lfe)).handle` for Cartesian
+blocks (the C01/C13 model).  The theorems below are over ℝ and have NO hypothesis on any gain or geometric
+sub-result: what is left are decidable table obligations (`envOkB`, discharged for the ten layouts by
+`concrete_tables_ok`) and the sign of the block's own gains.  `handleC = .ok …` is the statement "the code returned
+gains": a fallback panner that has no answer is an error of the model (`pspNone`), not a hypothesis. -/
+
+/-- table obligations of one layout's environment: `is_lfe` ⇔ name is LFE1/LFE2 (C10 table), the C05 region table is
+    well-formed (`RawLayout.wellFormed`, the C05 obligation), the allocentric fallback positions are pairwise
+    distinct (the obligation of `allo_unit_power_distinct`, C01/C13) -/
+def envOkB (E : CEnv) : Bool :=
+  layoutOk E.L && E.psp.wellFormed && C13.distinctB (E.alloPsp.map ratP3)
+
+/-- 1 + 2⁻⁴⁰ as a real number -/
+noncomputable def slackR : ℝ := ((slack : Rat) : ℝ)
+
+theorem slackR_ge_one : (1 : ℝ) ≤ slackR := by
+  have := slack_ge_one
+  unfold slackR
+  exact_mod_cast this
+
+/-- Facts established at each exit of the concrete model (real gains). -/
+structure ExitFactsR (L : Layout) (lfe : Bool) (pv : List ℝ) (cons : Prop) : Prop where
+  nonneg : GainCalc.Nonneg pv
+  power : GainCalc.sumSq pv ≤ slackR
+  lfe : cons → ZeroOffR L.isLfe lfe pv
+  len : pv.length = L.names.length
+
+theorem ExitFactsR.of_rat {L : Layout} {lfe : Bool} {pvQ : List Rat} {cons : Prop}
+    (h : ExitFacts L lfe pvQ cons True) : ExitFactsR L lfe (castV pvQ) cons :=
+  ⟨castV_nonneg (h.nonneg trivial),
+   by rw [sumSq_castV]; unfold slackR; exact_mod_cast h.power trivial,
+   fun hc => zeroOff_castV (h.lfe hc),
+   by rw [length_castV, h.len]⟩
+
+/-- the two early exits of the rational decision structure (they do not look at the position) -/
+theorem earlyExit_facts {R : List MappingRule} {P : List (String × String)} {L : Layout} {b : Block}
+    (hR : ∀ r ∈ R, ruleOk r = true) (hL : layoutOk L = true) {e : Exit} {pv : List Rat}
+    (h : earlyExit R P L b = .ok (some (e, pv))) :
+    ExitFacts L (isLfeChannel b) pv (PackConsistent P b) True := by
+  unfold earlyExit at h
+  split at h
+  · cases h
+  · rename_i pv' hrs
+    injection h with h; injection h with h; injection h with _ h; subst h
+    exact ruleStage_facts hR hL hrs _
+  · split at h
+    · rename_i idx hm
+      injection h with h; injection h with h; injection h with _ h; subst h
+      exact label_facts hL hm _ _
+    · cases h
+
+/-- the fallback panner of the concrete model: non-negative, Σ² ≤ 1, whenever it answers — polar blocks by the C05
+    theorems over the well-formed table, Cartesian blocks by the C01/C13 theorems over the distinct positions -/
+theorem fallbackC_contract (E : CEnv) (hE : envOkB E = true) (s : Shifted ℝ) (g : List ℝ)
+    (h : fallbackC E s = .ok g) : GainCalc.Nonneg g ∧ GainCalc.sumSq g ≤ 1 := by
+  simp only [envOkB, Bool.and_eq_true] at hE
+  obtain ⟨⟨_, hwf⟩, hd⟩ := hE
+  unfold fallbackC at h
+  split at h
+  · split at h
+    · cases h
+    · rename_i g' hg
+      injection h with h; subst h
+      exact pspHandle_nonneg_le_one E.psp hwf s.cart g' hg
+  · simp only at h
+    split at h
+    · cases h
+    · rename_i st hst
+      split at h
+      · cases h
+      · rename_i g' hg
+        injection h with h; subst h
+        obtain ⟨h1, h2⟩ := allo_fallback_contract E.alloPsp hd st hst _ _ _ g' hg
+        exact ⟨h1, by rw [h2]⟩
+
+theorem handleNoGainC_facts (E : CEnv) (hE : envOkB E = true) (P : Conv.Params ℝ) (b : Block) (pos : PositionC)
+    (tol : Rat) {e : Exit} {pv : List ℝ} (h : handleNoGainC rules ituPacks E P b pos tol = .ok (e, pv)) :
+    ExitFactsR E.L (isLfeChannel b) pv (PackConsistent ituPacks b) := by
+  have hL : layoutOk E.L = true := by
+    simp only [envOkB, Bool.and_eq_true] at hE; exact hE.1.1
+  unfold handleNoGainC at h
+  split at h
+  · cases h
+  · split at h
+    · cases h
+    · rename_i r hr
+      injection h with h; injection h with h1 h2; subst h1; subst h2
+      exact ExitFactsR.of_rat (earlyExit_facts rules_ok hL (e := r.1) (pv := r.2) hr)
+    · split at h
+      · cases h
+      · rename_i s hs
+        simp only at h
+        rcases lateExitC_cases h with ⟨pvQ, hq, _, rfl⟩ | ⟨_, hlfe, g, hg, hsc⟩
+        · refine ExitFactsR.of_rat (lateExit_facts hL ?_ (fun _ x hx => by simp at hx) (fun _ => ?_) hq _)
+          · intro c hc
+            exact closestIndexC_is_candidate hc
+          · exact le_trans (show sumSq ([] : List Rat) ≤ 1 by decide) slack_ge_one
+        · obtain ⟨hn, hp⟩ := fallbackC_contract E hE s g hg
+          obtain ⟨h1, h2, h3, h4⟩ := scatterC_spec _ _ _ hsc
+          refine ⟨h1 hn, by rw [h2]; exact le_trans hp slackR_ge_one, fun _ => by rw [hlfe]; exact h4,
+            by rw [h3, isLfe_length hL]⟩
+
+theorem handleC_ok {E : CEnv} {P : Conv.Params ℝ} {b : Block} {pos : PositionC} {tol : Rat} {e : Exit} {pv : List ℝ}
+    (h : handleC rules ituPacks E P b pos tol = .ok (e, pv)) :
+    ∃ pv0, handleNoGainC rules ituPacks E P b pos tol = .ok (e, pv0) ∧ pv = scaleC b pv0 := by
+  unfold handleC at h
+  split at h
+  · cases h
+  · rename_i e' pv0 h0
+    injection h with h; injection h with h1 h2
+    subst h1; subst h2
+    exact ⟨pv0, h0, rfl⟩
+
+/-- **Gains are non-negative, nothing captured**: every block with block gain ≥ 0 and object gain ≥ 0, polar or
+    Cartesian position with bounds and screen edge lock, on every environment satisfying the table obligations. -/
+theorem geo_ds_nonneg_concrete (E : CEnv) (hE : envOkB E = true) (P : Conv.Params ℝ) (b : Block) (pos : PositionC)
+    (tol : Rat) (hgain : 0 ≤ b.gain) (hog : 0 ≤ b.objectGain) (e : Exit) (pv : List ℝ)
+    (h : handleC rules ituPacks E P b pos tol = .ok (e, pv)) : ∀ x ∈ pv, 0 ≤ x := by
+  obtain ⟨pv0, h0, rfl⟩ := handleC_ok h
+  exact scaleC_nonneg (handleNoGainC_facts E hE P b pos tol h0).nonneg hgain hog
+
+/-- **Never amplify, nothing captured**: Σ g² ≤ (block gain × object gain)² · (1 + 2⁻⁴⁰); the slack is needed only
+    for the mapping-rule exit (float64 roundings of the √ table values), the panner exits have Σ g² ≤ (…)². -/
+theorem geo_ds_power_le_concrete (E : CEnv) (hE : envOkB E = true) (P : Conv.Params ℝ) (b : Block) (pos : PositionC)
+    (tol : Rat) (e : Exit) (pv : List ℝ) (h : handleC rules ituPacks E P b pos tol = .ok (e, pv)) :
+    (pv.map fun x => x * x).sum ≤ (gainR b * gainR b) * slackR := by
+  obtain ⟨pv0, h0, rfl⟩ := handleC_ok h
+  have hf := handleNoGainC_facts E hE P b pos tol h0
+  have hs : ((scaleC b pv0).map fun x => x * x).sum = GainCalc.sumSq (scaleC b pv0) := by
+    rw [GainCalc.sumSq_eq_sum_sq, GainCalc.sum_eq_listSum]; rfl
+  rw [hs, sumSq_scaleC]
+  have hsq := mul_self_nonneg (gainR b)
+  nlinarith [hf.power]
+
+/-- the panner exit alone has no slack: Σ g² ≤ (block gain × object gain)² -/
+theorem geo_ds_power_le_concrete_point_source (E : CEnv) (hE : envOkB E = true) (P : Conv.Params ℝ) (b : Block)
+    (pos : PositionC) (tol : Rat) (pv : List ℝ) (h : handleC rules ituPacks E P b pos tol = .ok (.pointSource, pv)) :
+    (pv.map fun x => x * x).sum ≤ gainR b * gainR b := by
+  obtain ⟨pv0, h0, rfl⟩ := handleC_ok h
+  have hs : ((scaleC b pv0).map fun x => x * x).sum = GainCalc.sumSq (scaleC b pv0) := by
+    rw [GainCalc.sumSq_eq_sum_sq, GainCalc.sum_eq_listSum]; rfl
+  rw [hs, sumSq_scaleC]
+  have hsq := mul_self_nonneg (gainR b)
+  suffices hp : GainCalc.sumSq pv0 ≤ 1 by nlinarith
+  unfold handleNoGainC at h0
+  split at h0
+  · cases h0
+  · split at h0
+    · cases h0
+    · -- early exits are `rule` / `label`
+      rename_i r hr
+      injection h0 with h0; injection h0 with he _
+      unfold earlyExit at hr
+      split at hr
+      · cases hr
+      · injection hr with hr; injection hr with hr; rw [← hr] at he; cases he
+      · split at hr
+        · injection hr with hr; injection hr with hr; rw [← hr] at he; cases he
+        · cases hr
+    · split at h0
+      · cases h0
+      · rename_i s hs'
+        simp only at h0
+        rcases lateExitC_cases h0 with ⟨_, _, hne, _⟩ | ⟨_, _, g, hg, hsc⟩
+        · exact absurd rfl hne
+        · obtain ⟨_, hp⟩ := fallbackC_contract E hE s g hg
+          obtain ⟨_, h2, _, _⟩ := scatterC_spec _ _ _ hsc
+          rw [h2]; exact hp
+
+/-- LFE channel ⇒ only LFE outputs, nothing captured. -/
+theorem geo_ds_lfe_in_only_lfe_out_concrete (E : CEnv) (hE : envOkB E = true) (P : Conv.Params ℝ) (b : Block)
+    (pos : PositionC) (tol : Rat) (hc : PackConsistent ituPacks b) (hlfe : isLfeChannel b = true)
+    (e : Exit) (pv : List ℝ) (h : handleC rules ituPacks E P b pos tol = .ok (e, pv)) :
+    ∀ i : Nat, E.L.isLfe[i]? = some false → pv[i]? = some 0 := by
+  obtain ⟨pv0, h0, rfl⟩ := handleC_ok h
+  have hz := zeroOff_scaleC b ((handleNoGainC_facts E hE P b pos tol h0).lfe hc)
+  rw [hlfe] at hz
+  exact hz
+
+/-- Non-LFE channel ⇒ never an LFE output, nothing captured (in particular the fallback panner's gains go to the
+    non-LFE slots only). -/
+theorem geo_ds_nonlfe_never_lfe_out_concrete (E : CEnv) (hE : envOkB E = true) (P : Conv.Params ℝ) (b : Block)
+    (pos : PositionC) (tol : Rat) (hc : PackConsistent ituPacks b) (hlfe : isLfeChannel b = false)
+    (e : Exit) (pv : List ℝ) (h : handleC rules ituPacks E P b pos tol = .ok (e, pv)) :
+    ∀ i : Nat, E.L.isLfe[i]? = some true → pv[i]? = some 0 := by
+  obtain ⟨pv0, h0, rfl⟩ := handleC_ok h
+  have hz := zeroOff_scaleC b ((handleNoGainC_facts E hE P b pos tol h0).lfe hc)
+  rw [hlfe] at hz
+  exact hz
+
+theorem geo_ds_length_concrete (E : CEnv) (hE : envOkB E = true) (P : Conv.Params ℝ) (b : Block) (pos : PositionC)
+    (tol : Rat) (e : Exit) (pv : List ℝ) (h : handleC rules ituPacks E P b pos tol = .ok (e, pv)) :
+    pv.length = E.L.names.length := by
+  obtain ⟨pv0, h0, rfl⟩ := handleC_ok h
+  rw [length_scaleC, (handleNoGainC_facts E hE P b pos tol h0).len]
+
+/-- Pass-through with nothing captured (position and panners are never consulted): the gains are the rational
+    unit vector × block gain × object gain, as real numbers. -/
+theorem geo_ds_passthrough_concrete (E : CEnv) (hL : E.L ∈ layouts) (P : Conv.Params ℝ) (p : CommonPack)
+    (hp : p ∈ commonPacks) (hitu : ituPacks.lookup p.id = some E.L.name) (c : CommonChannel) (hc : c ∈ p.channels)
+    (gain og : Rat) (mute : Bool) (pos : PositionC) (tol : Rat) :
+    ∃ l e, c.labels.head? = some l ∧ nominalSpeakerLabel l ∈ E.L.names ∧
+      handleC rules ituPacks E P (c.block p.id gain og mute) pos tol =
+        .ok (e, scaleC (c.block p.id gain og mute)
+              (castV (unitVec E.L.names.length (E.L.names.idxOf (nominalSpeakerLabel l))))) := by
+  have h := passthrough_table
+  simp only [passTable, List.all_eq_true, Bool.or_eq_true, bne_iff_ne, ne_eq] at h
+  have hcell := (h E.L hL p hp).resolve_left (fun hne => hne hitu) c hc
+  unfold passOk at hcell
+  split at hcell
+  · cases hcell
+  · rename_i l ls hlab
+    simp only [Bool.and_eq_true] at hcell
+    obtain ⟨hmem, hee⟩ := hcell
+    have hearly : earlyExit rules ituPacks E.L (c.block p.id gain og mute)
+        = earlyExit rules ituPacks E.L (c.block p.id 1 1 false) := rfl
+    split at hee
+    · rename_i e pv hpv
+      have hpv' : pv = unitVec E.L.names.length (E.L.names.idxOf (nominalSpeakerLabel l)) := by
+        simpa using hee
+      refine ⟨l, e, by rw [hlab]; rfl, List.contains_iff_mem.mp hmem, ?_⟩
+      unfold handleC handleNoGainC
+      rw [hearly, hpv]
+      simp only [CommonChannel.block, hpv']
+      rfl
+    · cases hee
+
+/-! ### which blocks the concrete model rejects: the Cartesian path without screen edge lock -/
+
+/-- the allocentric fallback on a non-empty set of pairwise distinct positions always answers, one gain per position -/
+theorem fallbackC_cart_total (E : CEnv) (hE : envOkB E = true) (hne : E.alloPsp ≠ [])
+    (hcount : E.alloPsp.length = (E.L.isLfe.filter (!·)).length) (s : Shifted ℝ)
+    (hs : s.polar = false) : ∃ g, fallbackC E s = .ok g ∧ g.length = (E.L.isLfe.filter (!·)).length := by
+  simp only [envOkB, Bool.and_eq_true] at hE
+  obtain ⟨_, hd⟩ := hE
+  have e : (E.alloPsp.map fun p => (GainCalc.toP3 (cast3 p) : Zone.P3 ℝ)) = (E.alloPsp.map ratP3).map C13.castP3 := by
+    rw [List.map_map]; exact List.map_congr_left (fun p _ => toP3_cast3 p)
+  have hdist := C13.distinct_cast _ hd
+  obtain ⟨st, hst, hts, hm⟩ := C13.speakerTree_spec _ hdist
+  have hne' : (E.alloPsp.map ratP3).map C13.castP3 ≠ [] := by simpa using hne
+  obtain ⟨r, hr⟩ := GainCalc.alloHandle_total ((E.alloPsp.map ratP3).map C13.castP3).length st s.cart.1 s.cart.2.1
+    s.cart.2.2 (treeNonempty_of_spec _ hne' st hts hm)
+  obtain ⟨_, _, hlen⟩ := GainCalc.allo_unit_power_distinct _ hdist st hst _ _ _ r hr
+  refine ⟨r, ?_, by rw [← hcount]; simpa using hlen⟩
+  unfold fallbackC
+  simp only [hs, Bool.false_eq_true, if_false, e, hst, hr]
+
+/-- the early exits do not fail unless the block is one of the three rejected kinds -/
+theorem earlyExit_ok (L : Layout) (b : Block) (hpacks : b.packs ≠ some [])
+    (hlab : ∀ il, ituLayoutOf ituPacks b = .ok (some il) → b.labels ≠ []) :
+    ∃ o, earlyExit rules ituPacks L b = .ok o := by
+  have hitu : ∃ o, ituLayoutOf ituPacks b = .ok o := by
+    unfold ituLayoutOf
+    split
+    · exact ⟨_, rfl⟩
+    · rename_i ps hps
+      split
+      · rename_i hlast
+        rw [List.getLast?_eq_none_iff] at hlast
+        exact absurd (by rw [hps, hlast]) hpacks
+      · exact ⟨_, rfl⟩
+  obtain ⟨o, ho⟩ := hitu
+  have hrs : ∃ o', ruleStage rules ituPacks L b = .ok o' := by
+    unfold ruleStage
+    rw [ho]
+    cases o with
+    | none => exact ⟨_, rfl⟩
+    | some il =>
+      simp only
+      split
+      · rename_i hnil
+        exact absurd hnil (hlab il ho)
+      · split <;> exact ⟨_, rfl⟩
+  obtain ⟨o', ho'⟩ := hrs
+  unfold earlyExit
+  rw [ho']
+  cases o' with
+  | some pv => exact ⟨_, rfl⟩
+  | none =>
+    dsimp only
+    cases labelMatch L (isLfeChannel b) b.labels <;> exact ⟨_, rfl⟩
+
+/-- **Cartesian blocks without screenEdgeLock are never rejected by the fallback**: unless the block has a
+    positionOffset, an empty audioPackFormats list or no speakerLabel inside an ITU pack, `handle` returns gains —
+    `AllocentricPanner.handle` always answers (C01 `alloHandle_total`, C13 `speakerTree_spec`).
+    PARTIAL (`ds_errors_exact` for the concrete model): missing are the polar path (needs "the C05 panner answers
+    for every direction", i.e. C05 totality, not proved here) and Cartesian blocks WITH a screenEdgeLock (needs
+    totality of `point_cart_to_polar` / `point_polar_to_cart`, i.e. that `_find_sector` never asserts). -/
+theorem handleC_total_cart_partial (E : CEnv) (hE : envOkB E = true) (hne : E.alloPsp ≠ [])
+    (hcount : E.alloPsp.length = (E.L.isLfe.filter (!·)).length) (P : Conv.Params ℝ) (b : Block)
+    (hoff : b.hasPositionOffset = false) (hpacks : b.packs ≠ some [])
+    (hlab : ∀ il, ituLayoutOf ituPacks b = .ok (some il) → b.labels ≠ []) (x y z : Bound) (tol : Rat) :
+    ∃ e pv, handleC rules ituPacks E P b (.cart x y z ⟨none, none⟩) tol = .ok (e, pv) := by
+  suffices h : ∃ e pv, handleNoGainC rules ituPacks E P b (.cart x y z ⟨none, none⟩) tol = .ok (e, pv) by
+    obtain ⟨e, pv, h⟩ := h
+    exact ⟨e, scaleC b pv, by simp only [handleC, h]⟩
+  obtain ⟨o, ho⟩ := earlyExit_ok E.L b hpacks hlab
+  unfold handleNoGainC
+  simp only [hoff, Bool.false_eq_true, if_false, ho]
+  cases o with
+  | some r => exact ⟨_, _, rfl⟩
+  | none =>
+    simp only [shift, handleVectorCart_no_lock]
+    exact lateExitC_total _ _ _ _ _ (fun _ => fallbackC_cart_total E hE hne hcount _ rfl)
+
+
+/-- ... and they reach the allocentric panner exactly when the block is not an LFE channel, no early exit applies
+    and no loudspeaker of its class is within the bounds -/
+theorem handleC_cart_point_source (E : CEnv) (hE : envOkB E = true) (hne : E.alloPsp ≠ [])
+    (hcount : E.alloPsp.length = (E.L.isLfe.filter (!·)).length) (P : Conv.Params ℝ) (b : Block)
+    (hoff : b.hasPositionOffset = false) (hearly : earlyExit rules ituPacks E.L b = .ok none)
+    (hlfe : isLfeChannel b = false) (x y z : Bound) (tol : Rat)
+    (hwb : (candidates E.L false (cartWithinC (E.G.allo.map cast3 : List (GainCalc.V3 ℝ)) ⟨(GainCalc.k x.value : ℝ), x.min, x.max⟩
+      ⟨(GainCalc.k y.value : ℝ), y.min, y.max⟩ ⟨(GainCalc.k z.value : ℝ), z.min, z.max⟩ (GainCalc.k tol : ℝ))).any id = false) :
+    ∃ pv, handleC rules ituPacks E P b (.cart x y z ⟨none, none⟩) tol = .ok (.pointSource, pv) := by
+  suffices h : ∃ pv, handleNoGainC rules ituPacks E P b (.cart x y z ⟨none, none⟩) tol = .ok (.pointSource, pv) by
+    obtain ⟨pv, h⟩ := h
+    exact ⟨scaleC b pv, by simp only [handleC, h]⟩
+  unfold handleNoGainC
+  simp only [hoff, Bool.false_eq_true, if_false, hearly, shift, handleVectorCart_no_lock, hlfe]
+  unfold lateExitC
+  simp only [hwb, Bool.false_eq_true, if_false]
+  obtain ⟨g, hg, hlen⟩ := fallbackC_cart_total E hE hne hcount
+    (Shifted.mk (α := ℝ) (cartWithinC (α := ℝ) (E.G.allo.map cast3) ⟨GainCalc.k x.value, x.min, x.max⟩
+        ⟨GainCalc.k y.value, y.min, y.max⟩ ⟨GainCalc.k z.value, z.min, z.max⟩ (GainCalc.k tol))
+      (GainCalc.k x.value, GainCalc.k y.value, GainCalc.k z.value) (E.G.allo.map cast3) false) rfl
+  rw [hg]
+  obtain ⟨pv, hpv⟩ := scatterC_total E.L.isLfe g hlen
+  simp only [hpv]
+  exact ⟨_, rfl⟩
+
+/-! ### the ten layouts: environments from the regenerated C10 and C05 tables -/
+
+/-- the environment of every table layout (`mkEnv`: C10 `layouts`, `geoms`, `alloPsp`; C05 `layouts`) -/
+def envs : List CEnv :=
+  layouts.filterMap fun L => mkEnv layouts geoms alloPsp Earverif.Gen.C05.layouts L.name
+
+/-- Table obligations of the concrete theorems on the tables regenerated from the code on this run: all ten
+    layouts have an environment, and every environment satisfies `envOkB`; moreover the number of allocentric
+    fallback positions and the number of channels of the C05 panner equal the number of non-LFE slots. -/
+theorem concrete_tables_ok :
+    envs.map (fun E => E.L.name) = layouts.map (·.name) ∧ envs.length = 10 ∧ envs.all envOkB = true ∧
+    envs.all (fun E => E.alloPsp.length == (E.L.isLfe.filter (!·)).length &&
+      (if E.psp.stereo.isSome then 2 else E.psp.nReal) == (E.L.isLfe.filter (!·)).length) = true := by
+  decide +kernel
+
+theorem geo_ds_nonneg_concrete_layouts (E : CEnv) (hE : E ∈ envs) (P : Conv.Params ℝ) (b : Block) (pos : PositionC)
+    (tol : Rat) (hgain : 0 ≤ b.gain) (hog : 0 ≤ b.objectGain) (e : Exit) (pv : List ℝ)
+    (h : handleC rules ituPacks E P b pos tol = .ok (e, pv)) : ∀ x ∈ pv, 0 ≤ x :=
+  geo_ds_nonneg_concrete E (List.all_eq_true.mp concrete_tables_ok.2.2.1 E hE) P b pos tol hgain hog e pv h
+
+theorem geo_ds_power_le_concrete_layouts (E : CEnv) (hE : E ∈ envs) (P : Conv.Params ℝ) (b : Block) (pos : PositionC)
+    (tol : Rat) (e : Exit) (pv : List ℝ) (h : handleC rules ituPacks E P b pos tol = .ok (e, pv)) :
+    (pv.map fun x => x * x).sum ≤ (gainR b * gainR b) * slackR :=
+  geo_ds_power_le_concrete E (List.all_eq_true.mp concrete_tables_ok.2.2.1 E hE) P b pos tol e pv h
+
 /-! ## without the hypothesis: what the mapping-rule branch does with a frequency-only LFE channel
 
 The mapping-rule branch keys on the first speakerLabel only.  A block that claims to sit in a common-definition
@@ -646,5 +1012,75 @@ example : (fullOn "9+10+3" (blk [] none none 1)
     ⟨.cart (bnd (-45 / 100) (some (-1)) (some 1)) (bnd 1) (bnd 0), tol5, (-45 / 100, 1, 0), []⟩).map
       (fun r => r.toOption.map (fun q => (q.1, q.2.idxOf 1)))
     = some (some (.closest, 2)) := by decide +kernel
+
+/-! ### non-vacuity of the concrete theorems (real gains, environments from the regenerated tables) -/
+
+theorem envs_L050 : envs.all (fun E => E.L.name != "0+5+0" || E.L == L050) = true := by decide +kernel
+
+/-- the hypotheses of the `_concrete` theorems hold for the 0+5+0 environment of the tables (`envOkB` by
+    `concrete_tables_ok`) and a block taking the label exit: the model returns the real gains `[0,0,0,½,0,0]` -/
+example : (∃ E ∈ envs, E.L.name = "0+5+0") ∧ ∀ E ∈ envs, E.L.name = "0+5+0" → ∀ P : Conv.Params ℝ,
+    handleC rules ituPacks E P (blk ["LFEL"] (some 120) none (1 / 2))
+      (.polar (bnd 0) (bnd 0) (bnd 1) ⟨none, none⟩) tol5 = .ok (.label, ([0, 0, 0, 1 / 2, 0, 0] : List ℝ)) := by
+  refine ⟨?_, ?_⟩
+  · have : envs.any (fun E => E.L.name == "0+5+0") = true := by decide +kernel
+    obtain ⟨E, hE, hn⟩ := List.any_eq_true.mp this
+    exact ⟨E, hE, by simpa using hn⟩
+  · intro E hE hn P
+    have h1 := List.all_eq_true.mp envs_L050 E hE
+    have hL : E.L = L050 := by simpa [hn] using h1
+    have he : earlyExit rules ituPacks L050 (blk ["LFEL"] (some 120) none (1 / 2))
+        = .ok (some (.label, [0, 0, 0, 1, 0, 0])) := by decide +kernel
+    have hoff : (blk ["LFEL"] (some 120) none (1 / 2)).hasPositionOffset = false := rfl
+    simp only [handleC, handleNoGainC, hL, hoff, he, Bool.false_eq_true, if_false]
+    simp [scaleC, castV, objectGainOf, blk]
+
+
+/-- `handleC_total_cart_partial` on the ten layouts (shape obligations from `concrete_tables_ok`) -/
+theorem handleC_total_cart_layouts_partial (E : CEnv) (hE : E ∈ envs) (P : Conv.Params ℝ) (b : Block)
+    (hoff : b.hasPositionOffset = false) (hpacks : b.packs ≠ some [])
+    (hlab : ∀ il, ituLayoutOf ituPacks b = .ok (some il) → b.labels ≠ []) (x y z : Bound) (tol : Rat) :
+    ∃ e pv, handleC rules ituPacks E P b (.cart x y z ⟨none, none⟩) tol = .ok (e, pv) := by
+  have hok := List.all_eq_true.mp concrete_tables_ok.2.2.1 E hE
+  have hsh := List.all_eq_true.mp concrete_tables_ok.2.2.2 E hE
+  simp only [Bool.and_eq_true, beq_iff_eq] at hsh
+  have hne : E.alloPsp ≠ [] := by
+    have h2 : envs.all (fun E => !E.alloPsp.isEmpty) = true := by decide +kernel
+    have := List.all_eq_true.mp h2 E hE
+    simpa using this
+  exact handleC_total_cart_partial E hok hne hsh.1 P b hoff hpacks hlab x y z tol
+
+/-- the hypotheses of `handleC_total_cart_partial` are satisfiable: an unlabelled non-LFE block, on all ten layouts -/
+example : ∀ E ∈ envs, ∀ P : Conv.Params ℝ, ∃ e pv,
+    handleC rules ituPacks E P (blk [] none none 1) (.cart (bnd (1 / 2)) (bnd 1) (bnd 0) ⟨none, none⟩) tol5 = .ok (e, pv) :=
+  fun E hE P => handleC_total_cart_layouts_partial E hE P _ rfl (by simp [blk])
+    (by intro il h; simp [ituLayoutOf, blk] at h) _ _ _ _
+
+theorem envs_L020 : envs.all (fun E => E.L.name != "0+2+0" ||
+    (E.L == L020 && E.G.allo == [(-1, 1, 0), (1, 1, 0)] && E.alloPsp == [(-1, 1, 0), (1, 1, 0)])) = true := by
+  decide +kernel
+
+/-- non-vacuity on the panner exit: an unlabelled block straight ahead in allocentric coordinates on 0+2+0 (no
+    loudspeaker within its degenerate bounds) reaches the allocentric panner; by `geo_ds_power_le_concrete_point_source`
+    its gains then have Σ² ≤ 1 -/
+example : ∀ E ∈ envs, E.L.name = "0+2+0" → ∀ P : Conv.Params ℝ, ∃ pv : List ℝ,
+    handleC rules ituPacks E P (blk [] none none 1) (.cart (bnd 0) (bnd 1) (bnd 0) ⟨none, none⟩) tol5
+      = .ok (.pointSource, pv) ∧ (pv.map fun x => x * x).sum ≤ 1 := by
+  intro E hE hn P
+  have h1 := List.all_eq_true.mp envs_L020 E hE
+  simp only [hn, bne_self_eq_false, Bool.false_or, Bool.and_eq_true, beq_iff_eq] at h1
+  obtain ⟨⟨hL, hallo⟩, hpsp⟩ := h1
+  have hok := List.all_eq_true.mp concrete_tables_ok.2.2.1 E hE
+  obtain ⟨pv, hpv⟩ := handleC_cart_point_source E hok (by rw [hpsp]; simp) (by rw [hpsp, hL]; rfl) P
+    (blk [] none none 1) rfl (by rw [hL]; decide +kernel) (by decide +kernel) (bnd 0) (bnd 1) (bnd 0) tol5
+    (by
+      rw [hL, hallo]
+      simp only [candidates, cartWithinC, cartWithin1C, BoundC.lo, BoundC.hi, cast3, bnd, tol5, L020, List.map,
+        Option.map, Option.getD, GainCalc.k_real]
+      norm_num)
+  refine ⟨pv, hpv, ?_⟩
+  have := geo_ds_power_le_concrete_point_source E hok P _ _ _ pv hpv
+  simpa [gainR, blk, objectGainOf] using this
+
 
 end Earverif.DS
